@@ -212,6 +212,12 @@ type Info struct {
 	// EvalsAreSteps: evidence "evaluations" counts Steps (e.g. faulted decode
 	// calls) instead of runs.
 	EvalsAreSteps bool
+	// TokenScheduled: the engine runs real goroutines under the token
+	// scheduler. A Go-runtime "all goroutines are asleep" then means that some
+	// goroutine blocked in an operation the scheduler was never told about (a
+	// deadlock among announced operations is detected by the scheduler itself
+	// and reported as class "deadlock"): simulator coverage gap, exit 2.
+	TokenScheduled bool
 	// MemLimitMB, when non-zero, is applied to workers via ulimit -v.
 	MemLimitMB int
 }
